@@ -180,6 +180,12 @@ def run(chk, only_corpus=False):
         "is not modelled (no panic / hang there is observed by the correspondence run only)",
         "type-system definitions and descriptions are outside the parser/printer model (model answers Unsup); for them only "
         "the Go-side round-trip and totality checks apply",
+        "round trip: proved on the model are parse_wf, the token-level inversion print_parse and, from them, "
+        "roundtrip_partial whose lexical hypothesis lex_print_ok_b (lexing the printed bytes yields the token-level print) "
+        "is NOT proved in general; the driver evaluates it on every accepted executable document and reports "
+        "corr:C05/lex-print if it fails although all strings are re-quotable",
+        "block-string descriptions are compared by BlockStringValue (harness/gqldump.BlockStringValue, written for this "
+        "check) because the printer re-indents them by design",
         "goroutine stack exhaustion at about 3e6 nesting levels (lists, list types, selection sets) is outside every "
         "fuelled model: fatal error, not a recoverable panic (DESIGN.md C05, key stack-overflow)",
     ]
